@@ -5,6 +5,7 @@ import (
 	"github.com/bokysan/socketace/v2/internal/util/enc"
 	"github.com/pkg/errors"
 	"io"
+	"strings"
 )
 
 var CmdError = Command{
@@ -48,9 +49,11 @@ func (vr *ErrorResponse) Decode(e enc.Encoder, response []byte) error {
 	}
 	data := bytes.NewBuffer(val)
 	str, err := data.ReadString(0)
-	if err != io.EOF {
+	if err != nil && err != io.EOF {
 		return errors.WithStack(err)
 	}
+	// A NUL byte ends the message. Whatever the text is, an error answer always carries an error
+	str = strings.TrimRight(str, "\x00")
 	for _, e := range BadErrors {
 		if e.Error() == str {
 			vr.Err = e
